@@ -37,6 +37,10 @@ func paintSeverity(sb *strings.Builder, text string) bool {
 
 func paintRemote(sb *strings.Builder, line string) {
 	splitted := strings.SplitN(line, protocol.FieldDelimiter, 6)
+	if len(splitted) < 6 {
+		paintDefault(sb, line)
+		return
+	}
 
 	color.PaintWithAttr(sb, splitted[0],
 		config.Client.TermColors.Remote.RemoteFg,
@@ -105,6 +109,10 @@ func paintRemote(sb *strings.Builder, line string) {
 
 func paintClient(sb *strings.Builder, line string) {
 	splitted := strings.SplitN(line, protocol.FieldDelimiter, 3)
+	if len(splitted) < 3 {
+		paintDefault(sb, line)
+		return
+	}
 
 	color.PaintWithAttr(sb, splitted[0],
 		config.Client.TermColors.Client.ClientFg,
@@ -138,6 +146,10 @@ func paintClient(sb *strings.Builder, line string) {
 
 func paintServer(sb *strings.Builder, line string) {
 	splitted := strings.SplitN(line, protocol.FieldDelimiter, 3)
+	if len(splitted) < 3 {
+		paintDefault(sb, line)
+		return
+	}
 
 	color.PaintWithAttr(sb, splitted[0],
 		config.Client.TermColors.Server.ServerFg,
@@ -169,6 +181,14 @@ func paintServer(sb *strings.Builder, line string) {
 		config.Client.TermColors.Server.TextAttr)
 }
 
+// A line with fewer fields than its prefix promises is painted like any other text.
+func paintDefault(sb *strings.Builder, line string) {
+	color.PaintWithAttr(sb, line,
+		color.FgDefault,
+		color.BgDefault,
+		color.AttrNone)
+}
+
 // Colorfy a given line based on the line's content.
 func Colorfy(line string) string {
 	sb := pool.BuilderBuffer.Get().(*strings.Builder)
@@ -185,10 +205,7 @@ func Colorfy(line string) string {
 		paintServer(sb, line)
 
 	default:
-		color.PaintWithAttr(sb, line,
-			color.FgDefault,
-			color.BgDefault,
-			color.AttrNone)
+		paintDefault(sb, line)
 	}
 	return sb.String()
 }
